@@ -41,7 +41,7 @@ class Trk:
     def __init__(self, uid, pt, q):
         self._uid, self._pt, self._q = uid, pt, q
         self.idx = uid
-    def pt(self, scale: float = 1.0) -> float:
+    def pt(self, scale: float = 2.0) -> float:
         return self._pt * scale
     def q(self) -> int:
         return self._q
@@ -148,6 +148,11 @@ SELECT = {
         ("dic", "Pair(a={v}.met(), b={v}.nvtx())", CALLABLE), ("dic", "NPair({v}.met(), b={v}.jets().Count())", CALLABLE), ("dic", "Pair({v}.nvtx(), {v}.met())", CALLABLE),
         ("dic", "KPair({v}.nvtx(), {v}.met(), k={v}.run)", CALLABLE), ("dic", "KPair({v}.met(), k={v}.run, b={v}.nvtx())", CALLABLE),
         ("tupseq", "({v}.jets(), {v}.met())", ANY), ("Event", "{v}", ANY),
+        # a nested lambda / comprehension re-using the name of the enclosing parameter, which is used again AFTER it (the classes of the
+        # two variables declare the same method with other defaults / other parameters)
+        ("num", "{v}.jets().Select(lambda {v}: {v}.trks().Count()).Count() + {v}.trks().Count()", ANY),
+        ("seqnum", "{v}.jets().Select(lambda j: j.trks().Select(lambda j: j.pt()).Count() * 1000 + j.pt())", ANY),
+        ("seqnum", "{v}.jets().Select(lambda j: len([j.pt() for j in j.trks()]) * 1000 + j.pt(shift={k}))", ANY),
         # inner fusion inside the stage lambda: an argument mentioning the stage variable is substituted below lambdas re-using names
         ("seqnum", "{v}.jets().Select(lambda j: (j, {v}.met())).Select(lambda t: t[0].pt() + t[1])", ANY),
         ("deep", "{v}.jets().Select(lambda j: (j, {v}.met())).Select(lambda t: t[0].trks().Select(lambda {v}: {v}.pt() + t[1]))", ANY),
@@ -165,6 +170,7 @@ SELECT = {
     "Jet": [
         ("num", "{v}.pt()", ANY), ("num", "{v}.pt(shift={k})", ANY), ("num", "{v}.pt({k}.0, 1) + {v}.eta()", ANY), ("num", "{v}.ntrk()", ANY),
         ("num", "{v}.trks().Count()", ANY), ("num", "{v}.trks(minpt={k}.0).Select(lambda t: t.pt()).Count()", ANY), ("num", "{v}.idx", ANY),
+        ("num", "{v}.trks().Select(lambda {v}: {v}.pt()).Count() * 1000 + {v}.pt()", ANY), ("num", "len([{v}.pt() for {v} in {v}.trks()]) * 1000 + {v}.pt(shift={k})", ANY),
         ("num", "scaled({v}.pt())", CALLABLE), ("num", "scaled_by({v}.pt(), {k}.0)", CALLABLE), ("num", "scaled_by({v}.eta())", CALLABLE), ("num", "{v}.pt() - CUT", CALLABLE),
         ("seqTrk", "{v}.trks()", ANY), ("seqnum", "[t.pt({k}.0) for t in {v}.trks()]", ANY), ("seqnum", "{v}.trks().Select(lambda t: t.pt() * {v}.pt())", ANY),
         ("tup", "({v}.pt(), {v}.eta())", ANY), ("dic", "Pair(a={v}.pt(), b={v}.eta())", CALLABLE),
@@ -283,7 +289,7 @@ def gen_program(rnd, mode):
 
 def module_source(nodes, leaves, mode):
     src = [modgen.DS_HEADER, MODEL]
-    src.append("def build(ds, PS):")
+    src.append("def build(ds, PS, eager=False):")
     src.append("    s = {0: ds}")
     src.append("    p = {0: PS}")
     for i, n in enumerate(nodes):
@@ -301,6 +307,8 @@ def module_source(nodes, leaves, mode):
         src.append(f"        s[{i}] = s[{par}].{n['op']}({arg}) if not isinstance(s[{par}], Exception) else s[{par}]")
         src.append("    except Exception as ex:")
         src.append(f"        s[{i}] = ex")
+        # (interactive use: every stream is looked at as soon as it exists, the next stage is derived from a stream that has run)
+        src.append(f"    if eager and not isinstance(s[{i}], Exception): s[{i}].value()")
     src.append("    return s, p")
     return "import ast\n" + "\n".join(src) + "\n"
 
@@ -350,14 +358,19 @@ def run_program(ctx, rnd, mode, typed, info, program=None):
     try:
         if mode == "callable":
             # the same lambdas are first used with OTHER captured values (state kept between calls must not leak)
-            keep = (m.CUT, m.SHIFT)
-            m.CUT, m.SHIFT = -12345.5, 77
+            # (also the values the one-line helpers read: a helper pasted into one query says nothing about the next query)
+            keep = (m.CUT, m.SHIFT, m.SHIFT_IN_HELPER)
+            m.CUT, m.SHIFT, m.SHIFT_IN_HELPER = -12345.5, 77, -4096.0
             try:
                 m.build(m.DS(m.Event) if typed else m.DS(), PyStream([]))
             except Exception:
                 pass
-            m.CUT, m.SHIFT = keep
-        streams, _ = m.build(ds, PyStream([]))
+            m.CUT, m.SHIFT, m.SHIFT_IN_HELPER = keep
+        eager = rnd.random() < 0.3
+        if eager:
+            ctx.count("programs-built-with-every-stream-executed-as-soon-as-it-exists")
+        streams, _ = m.build(ds, PyStream([]), eager)
+        del ds.calls[:]
     except Exception as e:
         build_error = e
     for data in datasets:
